@@ -3,6 +3,7 @@ canonical transcript in which lists keep their order, mappings are written as or
 lists of pairs, and sets are sorted. Imported after the (optional) E4 hook."""
 import json
 import os
+import pathlib
 import shutil
 import tempfile
 
@@ -322,20 +323,29 @@ def items(dirs):
                         synsets=[mk.synset('n-ss1', 'n', 'i1', relations=[mk.rel('n-ss2', 'hypernym')]),
                                  mk.synset('n-ss2', 'n', 'i2', relations=[mk.rel('n-ss1', 'hyponym')])])
 
-    def history(db, gone, warm):
+    def history(db, gone, warm, before=(), arrive=None):
+        """before: lexicons removed BEFORE the (warm) reads; gone: removed after them; arrive: resource added at the
+        end (default: the unrelated lexicon n:7), alternately through wn.add_lexical_resource and wn.add of a file"""
         def run():
-            from wnmc import env
+            from wnmc import env, xmlw
             src = dirs[db]
             tmp = tempfile.mkdtemp(prefix='wnmc16h', dir=os.path.dirname(src))
             try:
                 shutil.copytree(src, os.path.join(tmp, 'd'))
                 env.close_pool()
                 wn.config.data_directory = os.path.join(tmp, 'd')
+                for g_ in before:
+                    wn.remove(g_, progress_handler=None)
                 if warm:
                     reads()
                 for g_ in gone:
                     wn.remove(g_, progress_handler=None)
-                env.add_resource(mk.resource([newlex], '1.3'))
+                if arrive is None:
+                    env.add_resource(mk.resource([newlex], '1.3'))
+                elif arrive[0] == 'memory':
+                    env.add_resource(arrive[1])
+                else:
+                    env.add(env.write_file('arrive.xml', xmlw.serialize(arrive[1]), pathlib.Path(tmp)))
                 return text(reads())          # written down while the temporary database is still current
             finally:
                 env.close_pool()
@@ -345,6 +355,13 @@ def items(dirs):
     for db, gone in (('uni', ['d:1']), ('uni', ['d:1', 'c:1', 'b:1', 'y:1']), ('hx', ['x:1'])):
         for warm in (False, True):
             add(f'hist:{db}:remove {" ".join(gone)}:add n:7:{"warm" if warm else "cold"}', db, history(db, gone, warm))
+    # ... and reads followed by the ARRIVAL of an extension of a lexicon that was read (nothing is removed after the
+    # reads): the base must show the extension's senses, relations, examples afterwards, through either entry point
+    RX = universe.resources(annot=True)['X1']
+    for route in ('memory', 'file'):
+        for warm in (False, True):
+            add(f'hist:hx:reads then add x:1 ({route}):{"warm" if warm else "cold"}', 'hx',
+                history('hx', [], warm, before=['x:1'], arrive=(route, RX)))
     add('scan+load', 'tax', lambda: (lambda p: [lmf.scan_lexicons(p), lmf.load(p, progress_handler=None)['lexicons'][0]['entries'][0]])(_write_max()))
     return out
 
